@@ -32,7 +32,12 @@ LinesOf(b, r) == LinesAcc(b, Code(r), 1, 1, 1, <<>>)
 HasPrefix(h, n) == Len(h) >= Len(n) /\ SubSeq(h, 1, Len(n)) = n
 Contains(h, n) == \E k \in 1..(Len(h) - Len(n) + 1) : SubSeq(h, k, k + Len(n) - 1) = n
 \* `except` patterns are restricted to literals, optionally anchored at the start (^lit): regex semantics are then plain
-MatchesPat(pat, lexeme) == IF pat.anchored = 1 THEN HasPrefix(lexeme, pat.lit) ELSE Contains(lexeme, pat.lit)
+\* ... and case-insensitive when written `(?i)lit` (an inline flag belongs to the pattern it is written in, never to the others)
+Lower(b) == [k \in 1..Len(b) |-> IF b[k] >= 65 /\ b[k] <= 90 THEN b[k] + 32 ELSE b[k]]
+MatchesPat(pat, lexeme) ==
+  LET lx == IF pat.ci = 1 THEN Lower(lexeme) ELSE lexeme IN
+  LET lt == IF pat.ci = 1 THEN Lower(pat.lit) ELSE pat.lit IN
+  IF pat.anchored = 1 THEN HasPrefix(lx, lt) ELSE Contains(lx, lt)
 Kept(o, lexeme) == \E k \in 1..Len(o.except) : MatchesPat(o.except[k], lexeme)
 RECURSIVE Filter(_, _, _)
 Filter(o, cs, j) == IF j > Len(cs) THEN <<>> ELSE (IF Kept(o, cs[j]) THEN <<cs[j]>> ELSE <<>>) \o Filter(o, cs, j + 1)
